@@ -511,4 +511,12 @@ def c11k(ctx):
               fail='the progress key of a seed task lacks %s: tasks that differ only in that share one saved progress' % missing)
     sc = ctx.fn('mapproxy/seed/config.py:SeedConfiguration.seed_tasks')
     per_level = [x for x in sc.walk() if is_call(x, 'SeedTask') and len(x.args) >= 3 and isinstance(x.args[2], ast.List) and len(x.args[2].elts) == 1]
+    # (or: the tasks of one cache/grid pair are built in a loop of their own over groups of levels)
+    def loops_around(x):
+        n, k = getattr(x, '_parent', None), 0
+        while n is not None and n is not sc.node:
+            k += isinstance(n, ast.For)
+            n = getattr(n, '_parent', None)
+        return k
+    per_level += [x for x in sc.walk() if is_call(x, 'SeedTask') and loops_around(x) >= 3]
     ctx.check(bool(per_level), 'SeedConfiguration.seed_tasks:per-level-tasks', 'one seed entry can become several tasks with the same name/cache/grid (one per level)', sc)
